@@ -241,12 +241,12 @@ def run(ctx):
             und.append({"op": "match", "line": c["line"], "d": c["d"], "nth": menu["nth"][n], "kind": menu["kinds"][k],
                         "term": menu["terms"][t], "matched": True, "s": u[1], "e": u[2], "pos": u[3:]})
     ctx.rng.shuffle(und)
-    und = und[:ctx.pick(4000, 40000)]
+    und = und[:ctx.pick(6000, 40000)]
     bad, _ = judge(ctx, "Judge_Fields", "Judge_Fields.cfg", und, "und", workers=workers, timeout=1500)
     recheck = [{k: v for k, v in und[i].items() if k not in ("matched", "s", "e", "pos")} for i in bad[:10]]
 
     # ---------------------------------------------------------------- (3) J: longer random inputs
-    inputs = recheck + random_inputs(ctx, ctx.pick(3000, 40000))
+    inputs = recheck + random_inputs(ctx, ctx.pick(6000, 40000))
 
     def desc_rec(r):
         return "%s line %r delimiter %s: %s" % (r["op"], txt(r["line"]), dkey(r["d"]),
